@@ -431,6 +431,8 @@ def _keys_values_sources(fn, zcall):
     ks, vs = set(), set()
     for a in zcall.args:
         ls = labels(a.value if isinstance(a, ast.Starred) else a)
+        if isinstance(a, ast.Call) and isinstance(a.func, ast.Attribute) and a.func.attr == 'items' and not a.args:
+            ls = ls | {'K:' + ast.unparse(a.func.value)}    # the items of a mapping, zipped as they are, carry its keys
         ks |= {l[2:] for l in ls if l.startswith('K:')}
         vs |= {l[2:] for l in ls if l.startswith('V:')}
     for k in sorted(ks):
@@ -1057,6 +1059,50 @@ def absence_test_rule(ctx, rid: str, pid: str, floor: int = 0):
                    'taken for "no result"', m.rel, c.lineno)
     return n
 
+
+def one_shot_in_loop_rule(ctx, rid: str, pid: str, floor: int = 0):
+    """A parameter that may be a one-shot iterable is not consumed once per iteration of a loop."""
+    repo = ctx.repo
+    ctx.rule(rid, 'a one-shot argument is not used per iteration: a parameter annotated Iterable / Iterator / Generator (not a union with bool: an option flag) that the function never '
+             're-binds to a materialised copy is not iterated, zipped or handed to a call inside the body of a loop that runs over something else - a generator, map or filter object '
+             'is empty from the second iteration on, so later moments / observables / rows silently see no qubits, keys or types', floor=floor, style='TNT')
+    ONE = ('Iterable', 'Iterator', 'Generator')
+    BENIGN = {'isinstance', 'len', 'type', 'id', 'repr', 'str', 'bool', 'callable', 'hasattr', 'getattr', 'cast'}
+
+    def one(a):
+        if a.annotation is None:
+            return False
+        parts = [p_.strip().strip('\'"').split('[')[0].split('.')[-1] for p_ in ast.unparse(a.annotation).split('|')]
+        return any(p_ in ONE for p_ in parts) and 'bool' not in parts
+    n = 0
+    for m, ci, fn in _functions(repo, pid):
+        params = {a.arg for a in fn.args.args + fn.args.kwonlyargs if one(a)}
+        if not params:
+            continue
+        rebound = {t.id for s_ in ast.walk(fn) if isinstance(s_, (ast.Assign, ast.AnnAssign)) for t in (s_.targets if isinstance(s_, ast.Assign) else [s_.target])
+                   if isinstance(t, ast.Name)} & params
+        par = m.parents()
+        for p_ in sorted(params - rebound):
+            hits = []
+            for l in ast.walk(fn):
+                if not isinstance(l, (ast.For, ast.While)):
+                    continue
+                if isinstance(l, ast.For) and any(isinstance(x, ast.Name) and x.id == p_ for x in ast.walk(l.iter)):
+                    continue
+                for x in [y for s_ in l.body for y in ast.walk(s_)]:
+                    if isinstance(x, ast.Name) and x.id == p_ and isinstance(x.ctx, ast.Load):
+                        pp = par.get(x)
+                        if (isinstance(pp, (ast.For, ast.comprehension)) and pp.iter is x) or isinstance(pp, ast.Starred) \
+                                or (isinstance(pp, ast.Call) and x in pp.args and (call_name(pp) or '').split('.')[-1] not in BENIGN) or isinstance(pp, ast.keyword):
+                            hits.append((x, pp))
+            if not hits and not any(isinstance(l, (ast.For, ast.While)) for l in ast.walk(fn)):
+                continue
+            n += 1
+            ctx.ob(rid, f'{m.name}.{(ci.name + ".") if ci else ""}{fn.name}:{p_}', not hits, '' if not hits else
+                   f'`{ast.unparse(hits[0][1])[:60]}` consumes `{p_}` inside a loop, and `{p_}` is never turned into a tuple / list first: with a generator argument every iteration after the '
+                   'first sees nothing', m.rel, hits[0][0].lineno if hits else fn.lineno)
+    return n
+
 FLOORS = {   # (z_fwd, z_drop, z_pair): about two thirds of the instances confirmed on the tree the rules were armed on
     'C01': (7, 40, 11),
     'C02': (4, 55, 8),
@@ -1096,11 +1142,12 @@ def apply(ctx, pid: str, only=None):
         'z_inv': lambda: inverted_relation_rule(ctx, f'{pid}.z_inv', pid, floor=0),
         'z_coord': lambda: coordinate_index_rule(ctx, f'{pid}.z_coord', pid, floor=0),
         'z_none': lambda: absence_test_rule(ctx, f'{pid}.z_none', pid, floor=0),
+        'z_loop': lambda: one_shot_in_loop_rule(ctx, f'{pid}.z_loop', pid, floor=0),
     }
     out = {}
     for k, f in rules.items():
         if only is None or k in only:
             out[k] = f()
     ctx.decided.append(f'{pid}.z_* general rules on the functions attributed to this property: sibling calls forward the same parameters (z_fwd), a wrapper does not swallow an option its '
-                       'callee accepts (z_drop), positional pairing only over ordered collections (z_pair), presence of a key is not tested by truthiness of the value (z_get), constructors do not mutate their arguments (z_ctor), optional option bags are inputs only (z_opt), generators are consumed once (z_gen), a lazily memoised field is dropped wherever its source fields are reassigned (z_memo), x[0] / x[-1] only where the function\'s own emptiness test protects it (z_first), a back-mapping built in a nested loop does not drop owners (z_inv), a qubit coordinate becomes a position only after a sign check (z_coord), call sites of one `T | None` function agree that absent means None (z_none)')
+                       'callee accepts (z_drop), positional pairing only over ordered collections (z_pair), presence of a key is not tested by truthiness of the value (z_get), constructors do not mutate their arguments (z_ctor), optional option bags are inputs only (z_opt), generators are consumed once (z_gen), a lazily memoised field is dropped wherever its source fields are reassigned (z_memo), x[0] / x[-1] only where the function\'s own emptiness test protects it (z_first), a back-mapping built in a nested loop does not drop owners (z_inv), a qubit coordinate becomes a position only after a sign check (z_coord), call sites of one `T | None` function agree that absent means None (z_none), a one-shot iterable parameter is not consumed per loop iteration (z_loop)')
     return out
